@@ -1,8 +1,8 @@
 ----------------------------- MODULE UriResolveMC -----------------------------
 EXTENDS UriResolve, TLC, Json
 CONSTANTS SegLen
-VARIABLES B, R, R2
-vars == <<B, R, R2>>
+VARIABLES B, R
+vars == <<B, R>>
 a == 97
 b == 98
 Txt(s) == s
@@ -16,15 +16,18 @@ RECURSIVE SegSeqs(_)
 SegSeqs(n) == IF n = 0 THEN {<<>>} ELSE LET s == SegSeqs(n - 1) IN s \cup {Append(x, g) : x \in {y \in s : Len(y) = n - 1}, g \in SegAlpha}
 RECURSIVE Join(_)
 Join(ss) == IF ss = <<>> THEN <<>> ELSE IF Len(ss) = 1 THEN ss[1] ELSE ss[1] \o <<SL>> \o Join(Tail(ss))
-RefPaths == {(IF lead THEN <<SL>> ELSE <<>>) \o Join(ss) \o (IF trail /\ ss # <<>> THEN <<SL>> ELSE <<>>) :
-                ss \in SegSeqs(SegLen), lead \in BOOLEAN, trail \in BOOLEAN}
+(* a reference starting with "//" would carry an authority: outside the statement, not generated *)
+RefPaths == {p \in {(IF lead THEN <<SL>> ELSE <<>>) \o Join(ss) \o (IF trail /\ ss # <<>> THEN <<SL>> ELSE <<>>) :
+                       ss \in SegSeqs(SegLen), lead \in BOOLEAN, trail \in BOOLEAN} : ~StartsWith(p, <<SL, SL>>)}
 (* a relative-path reference whose first segment contains ":" would parse as a scheme: none generated *)
 QF == {<< <<>>, <<>> >>, << << <<121>> >>, <<>> >>, << <<>>, << <<115>> >> >>, << << <<121>> >>, << <<115>> >> >>,
        << << <<>> >>, <<>> >>, << <<>>, << <<>> >> >>}
 Refs == {[scheme |-> <<>>, auth |-> <<>>, path |-> p, query |-> qf[1], frag |-> qf[2]] : p \in RefPaths, qf \in QF}
     \cup {[scheme |-> << <<102, 116, 112>> >>, auth |-> << <<120>> >>, path |-> p, query |-> <<>>, frag |-> <<>>] : p \in {<<>>, <<SL, a, SL, DOT, DOT, SL, b>>}}
-Refs2 == {[scheme |-> <<>>, auth |-> <<>>, path |-> p, query |-> <<>>, frag |-> <<>>] : p \in {<<>>, <<DOT, DOT, SL, b>>, <<SL, b>>, <<a>>, <<DOT>>}}
-Init == B \in Bases /\ R \in Refs /\ R2 \in Refs2
+Refs2 == << <<>>, <<DOT, DOT, SL, b>>, <<SL, b>>, <<a>>, <<DOT>> >>
+(* second reference for the chaining law, varied with the first *)
+R2 == [scheme |-> <<>>, auth |-> <<>>, path |-> Refs2[((Len(R.path) + Len(B.path)) % 5) + 1], query |-> <<>>, frag |-> <<>>]
+Init == B \in Bases /\ R \in Refs
 Next == UNCHANGED vars
 Spec == Init /\ [][Next]_vars
 T == Resolve(B, R)
